@@ -133,7 +133,7 @@ def r1(ctx, F, sfx, quiet=False):
     else:
         ctx.bad('C16.R1', 'reduction-is-maximum' + sfx, 'reduction %s over %s' % (red[0], names), 'a maximum (max_by with the natural comparator, or equivalent)', w, key_extra='reduction:%s' % red[0])
     # adaptors between source and reduction: only element-wise maps (no filter/skip/take/step_by)
-    bad = [n for n in names[1:] if n not in ('map', 'iter', 'into_iter', 'copied', 'cloned', 'deref')]
+    bad = [n for n in names[1:] if n not in ('map', 'iter', 'into_iter', 'copied', 'cloned', 'deref', 'rev')]        # (a maximum does not depend on the order)
     ctx.check('C16.R1', 'over-all-vertices' + sfx, not bad and names[-1:] == ['iter'] and repr(src).endswith('.vertices'), 'stream %s over %r' % (' <- '.join(names), src), 'every vertex of the cell, unfiltered', w, key_extra='stream')
     # the mapped quantity is the vertex radius^2 field
     if key_path:
